@@ -70,44 +70,43 @@ Ltac evalz := repeat match goal with
   end.
 Ltac acos2atan := repeat match goal with
   |- context [acos ?x] => rewrite (acos_atan x) by interval end; unfold Rsqr.
-Ltac tv := repeat autounfold with c09defs; evalconds; evalz; acos2atan; timeout 100 (interval with (i_prec 90)).
+Ltac tv := repeat autounfold with c09defs; evalconds; evalz; acos2atan; timeout 45 (interval with (i_prec 90)).
 (* the upper limit must not contain the literal 0 (= the lower limit): Interval 4.6 fails to
    reify the goal otherwise; zeros outside binders are simplified first *)
 Ltac inst := unfold rbasex_proj; unfold Abel, AbelW, tri, quad2, herm_p, herm_q, pos; cbv beta;
   rewrite ?Rmult_0_l, ?Rmult_0_r, ?Rplus_0_l, ?Rminus_0_r;
-  timeout 100 (integral with (i_prec 60, i_fuel 2000, i_degree 6)).
+  timeout 45 (integral with (i_prec 60, i_fuel 2000, i_degree 6)).
 '''
 
 
-def lemma(name, stmt, tac):
-    return 'Lemma %s : %s.\nProof. %s. Qed.\n' % (name, stmt, tac)
+def lemma(k, stmt, tac):
+    """Qed-checked, never failing: the message C09OK k is printed only when the
+    tactic proved the left disjunct (the statement); the kernel then checks
+    or_introl of that proof."""
+    return ('Lemma g%d : (%s) \\/ True.\nProof. first [ left; %s; idtac "C09OK %d" | right; exact I ]. Qed.\n'
+            % (k, stmt, tac, k))
 
 
 def run_goal_files(prefix, goals, per_file=8, timeout=900):
     """goals: list of (tag, statement, tactic).  Compiles them in parallel files;
     returns (n_ok, failed tags, errors)."""
+    import re
     files = []
     for k in range(0, len(goals), per_file):
         chunk = goals[k:k + per_file]
-        text = TV_HEADER + '\n'.join(lemma('g%d' % (k + m), st, tac) for m, (tag, st, tac) in enumerate(chunk))
+        text = TV_HEADER + '\n'.join(lemma(k + m, st, tac) for m, (tag, st, tac) in enumerate(chunk))
         files.append(('%s_%03d' % (prefix, k // per_file), text, chunk, k))
     res = vlib.coq_eval_many([(n, t) for n, t, _, _ in files], timeout=timeout)
     failed, errors, n_ok = [], [], 0
     for name, text, chunk, k in files:
         rc, out = res[name]
-        if rc == 0:
-            n_ok += len(chunk)
-            continue
-        # find which lemmas fail: diagnostic pass, one file per goal of this chunk
-        diag = [('%s_d%02d' % (name, m), TV_HEADER + lemma('g', st, tac)) for m, (tag, st, tac) in enumerate(chunk)]
-        r2 = vlib.coq_eval_many(diag, timeout=timeout)
+        oks = set(int(x) for x in re.findall(r'C09OK (\d+)', out))
         for m, (tag, st, tac) in enumerate(chunk):
-            rc2, out2 = r2['%s_d%02d' % (name, m)]
-            if rc2 == 0:
+            if rc == 0 and (k + m) in oks:
                 n_ok += 1
             else:
                 failed.append(tag)
-                errors.append((tag, out2[-400:]))
+                errors.append((tag, ('coqc rc=%d ' % rc) + out[-300:] if rc != 0 else 'tactic failed or timed out: ' + st[:300]))
     return n_ok, failed, errors
 
 
@@ -325,7 +324,7 @@ def inst_goals(fb, D, rng, quick):
             v = float(Mc[i, k])
             tol = up_pow2(2.0 ** -36 * max(v, 1e-290))
             add('basex_rho[s=%s][%d,%d]' % (sigma, i, k), v, 'basex_rho %d %s %d' % (k * k, rlit(Fraction(sigma)), i), tol,
-                'unfold basex_rho; timeout 100 (interval with (i_prec 100))')
+                'unfold basex_rho; timeout 45 (interval with (i_prec 100))')
     return goals, samples
 
 
@@ -568,25 +567,44 @@ def run(ctx):
     struct_bad = []
     n_struct = 0
     tvs = ins = []
+    sizes = ()
     if tr_err is None:
         # 2a. structure: IR in binary64 vs implementation, all entries
         sizes = (3, 4, 5, 24) if quick else (3, 4, 5, 7, 24, 60)
         t0 = time.time()
         struct_bad, n_struct = structure_check(fb, D, info, sizes, rng)
         notes.append('structure check: %d entries in %.0fs' % (n_struct, time.time() - t0))
-        # 2b. translation validation + 3. instances, inside Coq
-        if pr['ok']:
-            tvg, tvs = tv_goals(fb, D, info, rng, quick)
-            ing, ins = inst_goals(fb, D, rng, quick)
+    # 3. search on the implementation (no model)
+    broken = (tr_err is not None) or (not pr['ok']) or bool(struct_bad)
+    budget = (3 if quick else 10) * (3 if broken else 1)
+    t0 = time.time()
+    hits, n_eval, n_distinct, worst = search(ctx, rng, budget)
+    notes.append('search: %d evaluations in %.0fs' % (n_eval, time.time() - t0))
+    if os.environ.get('C09_SELFTEST_GOALS_FIRST'):
+        hits = []        # self-test switch: let the Coq goals see the mutant before the search reports it
+    # 2b. translation validation + 4. instances, inside Coq (skipped when the search already
+    #     produced failing inputs: the verdict is decided and failing goals are slow)
+    if tr_err is None and pr['ok'] and not hits:
+        tvg, tvs = tv_goals(fb, D, info, rng, quick)
+        ing, ins = inst_goals(fb, D, rng, quick)
+        t0 = time.time()
+        ok1, f1, e1 = run_goal_files('C09_tv', tvg, per_file=8 if quick else 16)
+        ok2, f2, e2 = run_goal_files('C09_inst', ing, per_file=3 if quick else 6)
+        n_goal_ok = ok1 + ok2
+        goal_fail = f1 + f2
+        goal_err = e1 + e2
+        notes.append('coq goal files: %d translation-validation + %d instance goals in %.0fs'
+                     % (len(tvg), len(ing), time.time() - t0))
+        ctx.cov.update(tv_goals=len(tvg), instance_goals=len(ing))
+        if goal_fail:
+            # a goal broke and the first search found nothing: search harder
             t0 = time.time()
-            ok1, f1, e1 = run_goal_files('C09_tv', tvg, per_file=8 if quick else 16)
-            ok2, f2, e2 = run_goal_files('C09_inst', ing, per_file=4 if quick else 8)
-            n_goal_ok = ok1 + ok2
-            goal_fail = f1 + f2
-            goal_err = e1 + e2
-            notes.append('coq goal files: %d translation-validation + %d instance goals in %.0fs'
-                         % (len(tvg), len(ing), time.time() - t0))
-            ctx.cov.update(tv_goals=len(tvg), instance_goals=len(ing))
+            hits, n2, d2, worst = search(ctx, rng, 3 * budget)
+            n_eval += n2
+            n_distinct = max(n_distinct, d2)
+            notes.append('enlarged search after failing goals: %d evaluations in %.0fs' % (n2, time.time() - t0))
+    elif hits:
+        notes.append('Coq instance / translation-validation goals skipped: the search found failing inputs')
     n_thm = len(pr['theorems'])
     n_goals = len(tvs) + len(ins)
     ctx.cov.update(obligations=n_thm + n_goals, discharged=pr['discharged'] + n_goal_ok,
@@ -600,12 +618,6 @@ def run(ctx):
                        'Abel/InvAbel are defined in the proper-integral parametrisation y -> sqrt(x^2+y^2); equivalence with the '
                        'singular textbook form is by substitution and not proved',
                        'scipy.integrate.quad in the search (tools/oracle/c09_quad.py)'])
-    # 4. search on the implementation
-    broken = (tr_err is not None) or (not pr['ok']) or goal_fail or struct_bad
-    budget = (3 if quick else 10) * (3 if broken else 1)
-    t0 = time.time()
-    hits, n_eval, n_distinct, worst = search(ctx, rng, budget)
-    notes.append('search: %d evaluations in %.0fs' % (n_eval, time.time() - t0))
     ctx.cov.update(evaluations=n_eval + n_struct + n_goals, distinct_nontrivial=n_distinct,
                    traces_validated_against_impl=n_struct + len(tvs),
                    rule='search: quadrature of the defining integral at special (k=0, i=0, i=k, i=k+-1, last row/col) and random '
@@ -614,12 +626,12 @@ def run(ctx):
                         'rbasex 1e-12*R^2+1e-11, basex (1e-9 + 4e-15 k^2 ln k^2)*max(|chi|,sigma), dasch 1e-11',
                    search_worst_ratio_to_tol={k: round(v, 4) for k, v in worst.items()},
                    samples=(tvs[:3] + ins[:3]),
-                   input_distribution=dict(structure_sizes=list(sizes) if tr_err is None else [],
+                   input_distribution=dict(structure_sizes=list(sizes),
                                            tv_goals=len(tvs), instance_goals=len(ins), search_evaluations=n_eval),
                    instances_only=['daun degree 2', 'daun degree 3 (Hermite p/q; the spline solve only swept)',
                                    'rbasex orders 0..8', 'basex rho_k'],
                    swept_only=['basex projections chi_k', 'daun degree 3 cardinal spline (solve_banded)',
-                               'dasch axis row i = 0 is a convention: only tied by translation validation'],
+                               'two_point axis entries D[0][0], D[0][1] are a convention (compared with the documented constants)'],
                    exhaustive=False)
     new = 0
     seen = set()
